@@ -220,12 +220,12 @@ Step(t) == \/ CheckFresh(t) \/ ParquetRead(t) \/ LockInProcess(t) \/ RecheckFres
            \/ WriteComplete(t) \/ Published(t) \/ RemoveFinal(t) \/ (\E f \in 0..NRg : RemoveFinalFile(t, f)) \/ RemoveFinalDir(t)
            \/ RenameStaging(t) \/ CleanupStaging(t) \/ OpenRg(t)
 Running == \E t \in Threads : pc[t] # "done"
-NextAll == Running /\ \E t \in Threads : Step(t)
+NextAll == \E t \in Threads : Step(t)          \* (every action needs pc[t] # "done")
 \* a thread can always move unless it waits for the lock
 CanMove(t) == pc[t] # "done" /\ (pc[t] = "lock" => lock[LockOf(ProcOf(t))] = 0)
 NextSim == Running /\ LET c == {t \in Threads : CanMove(t)} IN c # {} /\ LET t == RandomElement(c) IN Step(t)
-Next == IF Sim THEN NextSim ELSE NextAll
-Spec == Init /\ [][Next]_vars
+\* cfg files name NextAll (TLC then reports coverage per action) or NextSim directly
+Spec == Init /\ [][NextAll]_vars
 
 \* ---- properties -------------------------------------------------------------------------
 TypeOk == /\ \A t \in Threads : out[t] \in {"none", "ok", "error", "partial", "wrong", "parquet"}
